@@ -21,6 +21,11 @@ func init() {
 }
 
 func runGenEntry(c *Ctx, tag, entry string, args []int, variants []string, need []string, specsFilter func(name string) bool) {
+	runGenEntryX(c, tag, entry, args, variants, need, specsFilter, nil)
+}
+
+// runGenEntryX: as runGenEntry, with extra harness files (the step harness on request).
+func runGenEntryX(c *Ctx, tag, entry string, args []int, variants []string, need []string, specsFilter func(name string) bool, extra map[string]string) {
 	y, err := c.BuildYGen()
 	if err != nil {
 		c.Inconclusive("%v", err)
@@ -36,12 +41,16 @@ func runGenEntry(c *Ctx, tag, entry string, args []int, variants []string, need 
 		}
 		specs = f
 	}
-	g, err := c.Generate(y, specs, variants, nil)
+	g, err := c.Generate(y, specs, variants, extra)
 	if err != nil {
 		c.Inconclusive("%v", err)
 		return
 	}
 	specs = g.Specs
+	if extra != nil && g.NoStep != "" {
+		c.Outside = append(c.Outside, entry+" not established on this tree (the harness writes the driver's stack variables by name and they changed: "+g.NoStep+")")
+		return
+	}
 	var wg sync.WaitGroup
 	sem := make(chan struct{}, 4)
 	for _, s := range specs {
@@ -86,6 +95,18 @@ func C15(c *Ctx) {
 	c.Harnesses = append(c.Harnesses, "generated zz_verif_spec.go:VerifInterleave")
 	c.Explanation += " Interleaving on distinct contexts is explored at the granularity of semantic actions: the harness starts a complete parse on a fresh context from inside a solver-chosen reduction of another parse and requires both outcomes to equal the solo runs; the set of package-level variables written during an object-mode parse is recorded as a note."
 	runGenEntry(c, "C15", "VerifInterleave", []int{nx + 1, ny}, []string{"go-o", "go-o-u"}, []string{"interleaved"}, small)
+	// induction step for histories of any length: from arbitrary stack contents
+	D := 3
+	if c.Thorough() {
+		D = 5
+	}
+	c.Bound("reset step: the stack variables hold ANY contents (stack pointer 0..%d, slice length up to %d, arbitrary entries), then ParserInit(), then a parse of y (%d tokens): same outcome as from the pristine state; with the write footprint of a parse (only these variables) this extends the bounded histories to histories of any length whose parses stay within that depth", D, D, ny)
+	c.Harnesses = append(c.Harnesses, "harness/gen/step.go.txt:VerifResetStep")
+	rv := GoVariants
+	if !c.Thorough() {
+		rv = []string{"go", "go-o"} // the two driver texts; the -u forms differ in Action only
+	}
+	runGenEntryX(c, "C15", "VerifResetStep", []int{D, ny}, rv, []string{"reset"}, small, map[string]string{"zz_verif_step.go": stepSentinel})
 	c15TS(c, nx, ny)
 }
 
